@@ -949,11 +949,9 @@ class TexEnv(TexExpr):
 
     def __str__(self):
         contents = ''.join(map(str, self._contents))
-        if self.name == '[tex]':
-            return contents
-        else:
-            return '%s%s%s' % (
-                self.begin + str(self.args), contents, self.end)
+        # the root environment `[tex]` has empty delimiters and no arguments
+        return '%s%s%s' % (
+            self.begin + str(self.args), contents, self.end)
 
     def __repr__(self):
         if self.name == '[tex]':
